@@ -13,11 +13,12 @@ Init == l = 1 /\ bad = <<>> /\ free = <<>> /\ sv = SvInit
 Next == /\ l <= Len(Rec)
         /\ LET e == Rec[l]
                s0 == IF e.first THEN SvInit ELSE sv            \* a new case starts with a fresh view
-               r == Apply(s0, e.args.text, Call(e))
+               big == e.args.rep # <<>>                 \* large text given as a repeated pattern: judged by the lemma
+               r == IF big THEN [st |-> s0, ret |-> RepDecl(e.args.rep[1].unit, e.args.rep[1].n, Call(e))]
+                    ELSE Apply(s0, e.args.text, Call(e))
                ok == /\ e.out.k = "ok"
                      /\ e.out.ret = r.ret
-                     /\ r.ret = Decl(e.args.text, Call(e))
-                     /\ IndexConsistent(r.st, e.args.text)
+                     /\ (~big => r.ret = Decl(e.args.text, Call(e)) /\ IndexConsistent(r.st, e.args.text))
            IN /\ sv' = r.st
               /\ bad' = IF ok THEN bad ELSE Append(bad, e.i)
         /\ l' = l + 1
